@@ -14,9 +14,10 @@
 //!   A <comp> <tr> <token|N>                        AUTH_RESPONSE
 //!   L <n> <textlen>                                uncompressed BATCH of n identical unprepared statements of
 //!                                                  textlen bytes, empty value lists: only sizes are reported
-//!                                                  (`len <body size> <header length field>`), used for the
-//!                                                  >= 4 GiB body (finding frame-len32-wrap); `skipped` when
-//!                                                  the machine has too little free memory
+//!                                                  (`len <body size> <header length field>` or the refusal
+//!                                                  `err body-too-long <size>`), used for bodies around 4 GiB
+//!                                                  (fixed finding F19 frame-len32-wrap, /repo a9f519c);
+//!                                                  `skipped` when the machine has too little free memory
 //! comp: n | l | s;  tr: 0 | 1
 //! byte string: "-" (empty) | hex pairs | x<hh>^<count-hex> (one byte repeated)
 //! qparams: <cons-code> <serial -|8|9> <timestamp -|hex> <page_size -|hex> <paging N|bytes> <skip 0|1> <cells>
@@ -212,6 +213,7 @@ fn err_class(e: &CqlRequestSerializationError) -> String {
             _ => "err batch-other".into(),
         },
         E::SnapCompressError(_) => "err snap".into(),
+        E::BodyTooLong(n) => format!("err body-too-long {}", hex_u(*n as u128)),
         _ => "err other".into(),
     }
 }
@@ -780,7 +782,8 @@ fn boundary_cases() -> Vec<String> {
         v.push(format!("B {} 0 c 0 6 - - p01,p02 -;n*10000", c));
         v.push(format!("B {} 0 c 0 6 - - p01,p02 n*10000", c));
     }
-    // sizes only: small bodies and one body of 4 GiB + 34 bytes (needs ~5 GiB for ~3 s; skipped if memory is short)
+    // sizes only: small bodies and one body of 4 GiB + 34 bytes, which must be refused
+    // (needs ~5 GiB for ~3 s; skipped if memory is short)
     v.push("L 3 400".into());
     v.push("L 0 0".into());
     v.push("L 4 40000000".into());
